@@ -68,7 +68,7 @@ func {{ .RequestDecoder }}(mux goahttp.Muxer, decoder func(*http.Request) goahtt
 	payload.{{ .PasswordField }} = {{ if .PasswordPointer }}&{{ end }}pass
 {{- end }}{{ end }}
 {{- range .HeaderSchemes }}
-	{{- if not .CredRequired }}
+	{{- if .CredPointer }}
 	if payload.{{ .CredField }} != nil {
 	{{- end }}
 	if strings.Contains({{ if .CredPointer }}*{{ end }}payload.{{ .CredField }}, " ") {
@@ -76,7 +76,7 @@ func {{ .RequestDecoder }}(mux goahttp.Muxer, decoder func(*http.Request) goahtt
 		cred := strings.SplitN({{ if .CredPointer }}*{{ end }}payload.{{ .CredField }}, " ", 2)[1]
 		payload.{{ .CredField }} = {{ if .CredPointer }}&{{ end }}cred
 	}
-	{{- if not .CredRequired }}
+	{{- if .CredPointer }}
 	}
 	{{- end }}
 {{- end }}
